@@ -88,6 +88,7 @@ func funcDecl(p *packages.Package, name string) *ast.FuncDecl {
 }
 
 func runC11(c *Ctx) {
+	c.deserialiseParsesTheTextAsGiven()
 	c.rule("D1", "deserialiseCommonError, evaluated as a decision list on the text of every kind (as is / blank-padded), returns that kind; kind texts contain no ':' or newline", 80)
 	c.rule("D2", "every kind is listed in IsCommonError and has its own case in the deserialiser", 54)
 	c.rule("D3", "Errorf: one %w, first, bound to the target kind after ConvertContextError (ErrUnknown when nil); WrapError: a cancellation/deadline cause replaces the target kind", 3)
